@@ -7,6 +7,7 @@ import (
 	"bytes"
 	"fmt"
 	"net"
+	"strings"
 
 	"gitlab.com/yawning/obfs4.git/internal/zzverif/mc"
 	"gitlab.com/yawning/obfs4.git/internal/zzverif/o4h"
@@ -37,10 +38,14 @@ type tamper struct {
 	// script8: scripted 8-byte draws for the victim's random source (the
 	// random-length countermeasure draws its length with one Int63)
 	script8 [][]byte
-	desc   string
-	stream []byte // what the victim receives before EOF
-	intact int    // number of leading frames that are intact (their payload may be delivered)
-	cutAt  int    // interesting split offset
+	desc    string
+	stream  []byte // what the victim receives before EOF
+	intact  int    // number of leading frames that are intact (their payload may be delivered)
+	cutAt   int    // interesting split offset
+	// certain: the damage is in the body/tag of a complete frame: it is detected
+	// as soon as that frame is decoded, without any further data or the end of
+	// the stream (a damaged length field may make the decoder wait for more)
+	certain bool
 }
 
 // buildCases enumerates the tamperings of a frame sequence.
@@ -74,13 +79,22 @@ func buildCases(frames [][]byte, family string, thorough bool, r *rnd.Stream) []
 				for b := uint(0); b < 8; b++ {
 					s := cp()
 					s[starts[j]+i] ^= 1 << b
-					out = append(out, tamper{desc: fmt.Sprintf("flip frame %d byte %d bit %d", j, i, b), stream: s, intact: j, cutAt: starts[j] + i})
+					out = append(out, tamper{desc: fmt.Sprintf("flip frame %d byte %d bit %d", j, i, b), stream: s, intact: j, cutAt: starts[j] + i, certain: i >= 2})
 					if i < 2 {
 						// length field: also let the out-of-range countermeasure draw
 						// exactly the true box length, with the read split right
 						// behind the length field
 						out = append(out, tamper{desc: fmt.Sprintf("flip frame %d byte %d bit %d, countermeasure scripted to the true length", j, i, b), stream: s, intact: j, cutAt: starts[j] + 2,
 							script8: [][]byte{rnd.ScriptIntn(len(f) - 2 - 16)}})
+						if i == 0 && b == 7 {
+							// the top bit makes the length out of range for certain: let the
+							// countermeasure draw every extreme residue of its range (a residue
+							// beyond the range wraps around, harmlessly, in correct code)
+							for _, res := range []int{0, 1, 1428, 1429, 1430, 1431, 1432, 1433, 1445, 1446, 1447, 1448, 1449, 1<<31 - 1} {
+								out = append(out, tamper{desc: fmt.Sprintf("flip frame %d byte 0 bit 7, countermeasure draw scripted to residue %d", j, res), stream: s, intact: j, cutAt: starts[j] + 2,
+									script8: [][]byte{rnd.ScriptIntn(res)}})
+							}
+						}
 					}
 				}
 			}
@@ -172,6 +186,13 @@ func chunkings(small bool) []chunking {
 			}
 		}},
 	}
+	// the whole tampered stream arrives in the same segment as the server's
+	// handshake response (client role only; skipped for the server)
+	cs = append(cs, chunking{"coalesced-with-handshake", func(int) func(*wire.Conn, int, int) []int { return nil }})
+	// the attacker goes silent instead of ending the stream: only for damage
+	// that is certain to be detected without more data
+	cs = append(cs, chunking{"whole/peer-stays-silent", func(int) func(*wire.Conn, int, int) []int { return nil }})
+	cs = append(cs, chunking{"coalesced-with-handshake/peer-stays-silent", func(int) func(*wire.Conn, int, int) []int { return nil }})
 	if small {
 		cs = append(cs, chunking{"dribble", func(int) func(*wire.Conn, int, int) []int { return wire.Dribble }})
 	}
@@ -219,6 +240,14 @@ func familyPart(role string, seq []fclass, fam string, seed int64, thorough bool
 					break
 				}
 				for _, ch := range chunkings(size <= 300) {
+					coalesce := strings.HasPrefix(ch.name, "coalesced-with-handshake")
+					silent := strings.HasSuffix(ch.name, "/peer-stays-silent")
+					if coalesce && (role != "client" || size > 6000) {
+						continue
+					}
+					if silent && (fam != "bitflip" || (cached != nil && ci < len(cached) && !cached[ci].certain)) {
+						continue
+					}
 					realStream := rnd.New(seed, "c05-real-"+name)
 					rnd.Install(realStream)
 					refRnd := rnd.New(seed, "c05-ref-"+name)
@@ -241,10 +270,25 @@ func familyPart(role string, seq []fclass, fam string, seed int64, thorough bool
 					}
 					res := sched.Run(c, sched.Options{NoPreempt: true, NoEarlyTimers: true, MaxSteps: 3_000_000}, func() {
 						s := sched.Cur()
+						var prepare func(rs *o4h.RefSession) bool
 						attacker := func() {
 							var rs *o4h.RefSession
 							var err error
-							if role == "client" {
+							if role == "client" && coalesce {
+								rs, err = o4h.RefServer(sw, br.ID, o4h.ServerOpts{PadLen: 3, LenSeed: br.Seed, Tail: func(rs *o4h.RefSession) []byte {
+									if !prepare(rs) {
+										return nil
+									}
+									return tc.stream
+								}}, refRnd)
+								if err != nil {
+									hsErr = err
+								}
+								if !silent {
+									attackerWire.CloseWrite()
+								}
+								return
+							} else if role == "client" {
 								rs, err = o4h.RefServer(sw, br.ID, o4h.ServerOpts{PadLen: 3, LenSeed: br.Seed}, refRnd)
 							} else {
 								rs, _, err = o4h.RefClient(cw, br.ID.Pub[:], br.ID.NodeID[:], o4h.ClientOpts{PadLen: 80}, refRnd)
@@ -254,6 +298,19 @@ func familyPart(role string, seq []fclass, fam string, seed int64, thorough bool
 								attackerWire.Close()
 								return
 							}
+							if !prepare(rs) {
+								attackerWire.Close()
+								return
+							}
+							// offsets of the post-handshake stream start for the split chunker
+							attackerWire.Out.Marks = []int64{attackerWire.Out.Total}
+							victimWire.Chunker = ch.f(tc.cutAt)
+							attackerWire.Write(tc.stream)
+							if !silent {
+								attackerWire.CloseWrite()
+							}
+						}
+						prepare = func(rs *o4h.RefSession) bool {
 							var frames [][]byte
 							for i, f := range seq {
 								frames = append(frames, rs.Tx.Seal(ref.Packet(ref.PktPayload, payloads[i], f.pad)))
@@ -269,16 +326,11 @@ func familyPart(role string, seq []fclass, fam string, seed int64, thorough bool
 							cases := cached
 							nCases = len(cases)
 							if ci >= nCases {
-								attackerWire.Close()
-								return
+								return false
 							}
 							tc = cases[ci]
-							// offsets of the post-handshake stream start for the split chunker
-							attackerWire.Out.Marks = []int64{attackerWire.Out.Total}
-							victimWire.Chunker = ch.f(tc.cutAt)
 							realStream.Script8 = tc.script8
-							attackerWire.Write(tc.stream)
-							attackerWire.CloseWrite()
+							return true
 						}
 						s.Spawn("attacker", attacker)
 						var conn net.Conn
@@ -302,7 +354,7 @@ func familyPart(role string, seq []fclass, fam string, seed int64, thorough bool
 								} else {
 									afterErr++
 								}
-								if afterErr >= 3 {
+								if afterErr >= 3 || silent {
 									break
 								}
 							} else if n == 0 {
@@ -332,6 +384,9 @@ func familyPart(role string, seq []fclass, fam string, seed int64, thorough bool
 							allowed = append(allowed, tail[i-len(seq)]...)
 						}
 					}
+					if silent && !tc.certain {
+						continue // (only reachable before the case list exists)
+					}
 					oc := fmt.Sprintf("delivered=%d/%d err=%v", len(got), len(allowed), firstErr != nil)
 					outcomes[oc]++
 					c.Case(tc.desc+"/"+ch.name, oc)
@@ -353,6 +408,96 @@ func familyPart(role string, seq []fclass, fam string, seed int64, thorough bool
 	}
 }
 
+// otherConnection: the attacker is not on the victim's path but has a
+// connection of its own to the same process and chooses what it carries; both
+// are read concurrently.  The victim's delivered bytes must stay a prefix of
+// what the victim's peer wrote.
+func otherConnection(role string, seed int64) mc.Scenario {
+	return mc.Scenario{Name: "other-connection/" + role, Bound: 1, Weight: 300, Run: func(c *mc.Ctx) {
+		br := o4h.NewBridge(seed, "c05", 0, false)
+		rnd.Install(rnd.New(seed, "c05-real-other-"+role))
+		type cn struct {
+			cw, sw *wire.Conn
+			conn   net.Conn
+			in     []byte
+			got    []byte
+			hsErr  error
+			rfErr  error
+			rdErr  error
+			rdone  bool
+		}
+		cs := []*cn{{in: o4h.Pattern('V', 0, 120)}, {in: bytes.Repeat([]byte("ATTACKER-CHOSEN."), 8)}}
+		res := sched.Run(c, sched.Options{PreemptKinds: []string{"stmt"}, NoEarlyTimers: true, MaxSteps: 3_000_000}, func() {
+			s := sched.Cur()
+			sf, err := br.ServerFactory()
+			if err != nil {
+				cs[0].hsErr = err
+				return
+			}
+			for i, x := range cs {
+				i, x := i, x
+				x.cw, x.sw = wire.Pipe(fmt.Sprintf("client%d", i), fmt.Sprintf("server%d", i))
+				refRnd := rnd.New(seed, fmt.Sprint("c05-ref-other-", role, i))
+				s.Spawn(fmt.Sprintf("peer%d", i), func() {
+					var rs *o4h.RefSession
+					if role == "client" {
+						rs, x.rfErr = o4h.RefServer(x.sw, br.ID, o4h.ServerOpts{PadLen: 3, LenSeed: br.Seed}, refRnd)
+					} else {
+						rs, _, x.rfErr = o4h.RefClient(x.cw, br.ID.Pub[:], br.ID.NodeID[:], o4h.ClientOpts{PadLen: 80}, refRnd)
+					}
+					if x.rfErr == nil {
+						rs.Send(x.in[:len(x.in)/2], 2)
+						rs.Send(x.in[len(x.in)/2:], 0)
+					}
+				})
+				if role == "client" {
+					x.conn, x.hsErr = o4h.Dial(br.ClientArgs("cert", nil), x.cw)
+				} else {
+					x.conn, x.hsErr = sf.WrapConn(x.sw)
+				}
+				if x.hsErr != nil {
+					return
+				}
+			}
+			for i, x := range cs {
+				x := x
+				s.Spawn(fmt.Sprintf("reader%d", i), func() {
+					b := make([]byte, 64)
+					for len(x.got) < len(x.in) {
+						n, err := x.conn.Read(b)
+						x.got = append(x.got, b[:n]...)
+						if err != nil {
+							x.rdErr = err
+							break
+						}
+					}
+					x.rdone = true
+				})
+			}
+			s.Point("join", func() bool { return cs[0].rdone && cs[1].rdone })
+		})
+		if len(res.Panics) > 0 {
+			fail(c, "no-panic", "panic/other-connection", "%s", res.Panics[0])
+			return
+		}
+		for i, x := range cs {
+			if x.hsErr != nil || x.rfErr != nil {
+				fail(c, "setup", "handshake", "connection %d handshake failed: %v %v", i, x.hsErr, x.rfErr)
+				return
+			}
+			if !bytes.HasPrefix(x.in, x.got) {
+				fail(c, "prefix", "forged-bytes/other-connection", "connection %d delivered %d bytes that are not a prefix of what its own peer wrote (first difference at %d): bytes of another connection of the same process surfaced", i, len(x.got), firstDiff(x.in, x.got))
+				return
+			}
+			if len(x.got) != len(x.in) || x.rdErr != nil {
+				fail(c, "prefix", "other-connection/disturbed", "connection %d (untampered) delivered %d of %d bytes, error %v: connections influence each other", i, len(x.got), len(x.in), x.rdErr)
+				return
+			}
+		}
+		c.Observe("ok", 2)
+	}}
+}
+
 func firstDiff(a, b []byte) int {
 	for i := 0; i < len(a) && i < len(b); i++ {
 		if a[i] != b[i] {
@@ -370,6 +515,7 @@ func main() {
 		seqsBits := [][]fclass{{fPad}, {fOne}, {fMid}, {fOne, fPad, fOne}, {fFull}}
 		seqsOps := [][]fclass{{fOne, fOne, fOne, fOne}, {fOne, fPad, fMid}, {fMid, fFull, fOne}, {fFull, fFull}}
 		for _, role := range []string{"client", "server"} {
+			emit(otherConnection(role, cfg.Seed))
 			for _, sq := range seqsBits {
 				if cfg.Thorough() && len(sq) == 1 && sq[0].pay+sq[0].pad > 300 {
 					for k := 0; k < 8; k++ {
